@@ -1,14 +1,16 @@
 (* Props/C16.v -- property C16 (canonical JSON conforms to RFC 8785), stated on
-   the model Model/Jcs.v of NumberToJson.py / Canonicalize.py.  Statements only;
-   proofs are in Proofs/Jcs*.v.                                               *)
-From Coq Require Import String NArith ZArith List Bool.
-From V Require Import Base.UString Base.Json Model.JcsText Model.Jcs Spec.Rfc8785 Proofs.JcsNumFacts.
+   the model Model/Jcs.v of NumberToJson.py / Canonicalize.py against
+   Spec/Rfc8785.v and Spec/JcsSpec.v.  Statements only; proofs are in Proofs/Jcs*.v. *)
+From Coq Require Import String NArith ZArith List Bool Sorted Permutation.
+From V Require Import Base.UString Base.Json Model.JcsText Model.Jcs Spec.Rfc8785 Spec.JcsSpec
+  Proofs.JcsNumFacts Proofs.JcsEscFacts Proofs.JcsKeyFacts Proofs.JcsCanonFacts Proofs.JcsWsFacts.
 Import ListNotations.
 Open Scope N_scope.
 
-(* numbers: the text written for a double whose shortest round-trip digits are
-   ds (1..17 of them) with decimal exponent n is the ECMAScript text -- for every
-   digit string and every exponent in Z *)
+(* ---- numbers ------------------------------------------------------------------- *)
+(* the text written for a double whose shortest round-trip digits are ds (1..17 of
+   them) with decimal exponent n is the ECMAScript Number::toString text -- for
+   every digit string and every exponent in Z *)
 Theorem num_es6 : forall neg ds n, wf_digits ds ->
   convert2es6 (py_repr neg ds n) = JOk (es6_tostring neg ds n).
 Proof. exact num_es6_proof. Qed.
@@ -26,3 +28,63 @@ Theorem num_nan_inf_refused :
   convert2es6 (u "-inf") = JRaise ValueError.
 Proof. exact num_nan_inf_refused_proof. Qed.
 Print Assumptions num_nan_inf_refused.
+
+(* ---- strings --------------------------------------------------------------------- *)
+Theorem canon_escape_minimal : forall s, escape s = rfc_escape s.
+Proof. exact canon_escape_minimal_proof. Qed.
+Print Assumptions canon_escape_minimal.
+
+(* ---- member order ------------------------------------------------------------------ *)
+(* the byte order of the model's sort key (key.encode('utf-16_be')) is the UTF-16
+   code unit order of RFC 8785, and the key exists exactly for Unicode strings *)
+Theorem sort_key_is_utf16_order : forall k1 k2 b1 b2, sort_key k1 = Some b1 -> sort_key k2 = Some b2 ->
+  ustr_compare b1 b2 = ustr_compare (utf16 k1) (utf16 k2).
+Proof. exact sort_key_compare. Qed.
+Print Assumptions sort_key_is_utf16_order.
+
+Theorem sort_key_defined_iff_scalar : forall k, (exists b, sort_key k = Some b) <-> Forall scalar k.
+Proof.
+  exact (fun k => conj (fun '(ex_intro _ b H) => proj1 (sort_key_some k b H))
+                       (fun H => ex_intro _ _ (sort_key_scalar k H))).
+Qed.
+Print Assumptions sort_key_defined_iff_scalar.
+
+(* canon is: order the members of every object by UTF-16 code units, then write the
+   value down plainly (emit: no whitespace, RFC escaping, ES6 numbers) *)
+Theorem canon_emit : forall v, keys_scalar v -> canon v = emit (sort_deep v).
+Proof. exact canon_emit_proof. Qed.
+Print Assumptions canon_emit.
+
+Theorem canon_ok_emit : forall v t, canon v = JOk t -> keys_scalar v /\ emit (sort_deep v) = JOk t.
+Proof. exact (fun v t H => conj (canon_ok_keys_scalar v t H) (canon_emit_ok_proof v t H)). Qed.
+Print Assumptions canon_ok_emit.
+
+(* members ordered by UTF-16 code units at every depth, for every value *)
+Theorem canon_sorted : forall v, deep_ordered (sort_deep v).
+Proof. exact canon_sorted_proof. Qed.
+Print Assumptions canon_sorted.
+
+(* independence from member insertion order *)
+Theorem canon_perm : forall ms ms', Permutation ms ms' -> NoDup (map fst ms) ->
+  canon (JObj ms) = canon (JObj ms').
+Proof. exact canon_perm_proof. Qed.
+Print Assumptions canon_perm.
+
+Theorem canon_perm_deep : forall v w, jperm v w -> nodup_keys v -> canon v = canon w.
+Proof. exact canon_jperm_proof. Qed.
+Print Assumptions canon_perm_deep.
+
+(* ---- whitespace ---------------------------------------------------------------------- *)
+Theorem canon_no_ws : forall v t, canon v = JOk t -> nums_clean v ->
+  Forall (fun c => ~ is_ws c) (outside false t).
+Proof. exact canon_no_ws_proof. Qed.
+Print Assumptions canon_no_ws.
+
+(* ---- fixed point ------------------------------------------------------------------------ *)
+Theorem sort_deep_idem : forall v, sort_deep (sort_deep v) = sort_deep v.
+Proof. exact sort_deep_idem_proof. Qed.
+Print Assumptions sort_deep_idem.
+
+Theorem canon_fixpoint : forall v, keys_scalar v -> canon (sort_deep v) = canon v.
+Proof. exact canon_fixpoint_proof. Qed.
+Print Assumptions canon_fixpoint.
